@@ -367,7 +367,9 @@ class Oracle:
             if ent and ent[0][0] == "broker" and ent[0][2] == "remote_decref" and len(args) == 2:
                 k, n = args[0][1], args[1][1]
                 h = self.held[c].get(k)
-                if h and 0 < n <= h[1]:
+                # a negative count is the peer claiming MORE references (foolscap accepts it: the refcount grows); that only
+                # postpones the peer's own release, so the bookkeeping follows it rather than calling the later entry unjustified
+                if h and n <= h[1]:
                     h[1] -= n
                     if h[1] == 0:
                         del self.held[c][k]
